@@ -348,3 +348,78 @@ def strip_wrappers(e: ast.AST, wrappers=("tuple", "list", "cast", "Fraction", "f
 
 def same(a: ast.AST, b: ast.AST) -> bool:
     return ast.dump(a) == ast.dump(b)
+
+
+def reaching_defs(func_node: ast.AST, name: str, target: ast.AST) -> List[Tuple[ast.stmt, Optional[ast.AST]]]:
+    """Definitions of local `name` that may reach `target` (structured, path-insensitive inside
+    loops).  Returns [(stmt, value-or-None)]; an empty list means only the parameter / no binding."""
+    pm = parents(func_node)
+    tstmt = stmt_of(target, pm)
+    found: List[List[Tuple[ast.stmt, Optional[ast.AST]]]] = []
+
+    def binds(s):
+        if isinstance(s, ast.Assign):
+            for t in s.targets:
+                if is_name(t, name):
+                    return (s, s.value)
+                if name in assigned_names(t):
+                    return (s, None)
+        if isinstance(s, ast.AnnAssign) and is_name(s.target, name) and s.value is not None:
+            return (s, s.value)
+        if isinstance(s, ast.AugAssign) and is_name(s.target, name):
+            return (s, None)
+        return None
+
+    class Done(Exception):
+        pass
+
+    def block(stmts, cur):
+        for s in stmts:
+            if s is tstmt:
+                found.append(list(cur))
+                raise Done()
+            cur = stmt(s, cur)
+        return cur
+
+    def stmt(s, cur):
+        b = binds(s)
+        if b is not None:
+            return [b]
+        if isinstance(s, ast.If):
+            a = block(s.body, list(cur))
+            c = block(s.orelse, list(cur))
+            out = list(a)
+            for x in c:
+                if x not in out:
+                    out.append(x)
+            return out
+        if isinstance(s, (ast.For, ast.While)):
+            start = list(cur)
+            if isinstance(s, ast.For) and name in assigned_names(s.target):
+                start = [(s, None)]
+            # loop-carried definitions: anything bound in the body may reach its start
+            inner = [binds(x) for x in ast.walk(ast.Module(body=s.body, type_ignores=[])) if isinstance(x, ast.stmt) and binds(x) is not None]
+            st2 = start + [x for x in inner if x not in start]
+            after = block(s.body, st2)
+            out = list(cur)
+            for x in after + st2:
+                if x not in out:
+                    out.append(x)
+            return block(s.orelse, out) if s.orelse else out
+        if isinstance(s, ast.With):
+            return block(s.body, cur)
+        if isinstance(s, ast.Try):
+            a = block(s.body, list(cur))
+            out = list(a)
+            for h in s.handlers:
+                for x in block(h.body, list(cur) + a):
+                    if x not in out:
+                        out.append(x)
+            return block(s.finalbody, out) if s.finalbody else out
+        return cur
+
+    try:
+        block(func_node.body, [])
+    except Done:
+        pass
+    return found[0] if found else []
